@@ -385,6 +385,11 @@ impl Cache {
                         c.chars()
                             .all(|c| c.is_ascii_digit() || ('a'..='f').contains(&c))
                     })
+                    // ... which are located where `Self::path` puts them: <tpe>/<first 2 hex chars>/<id>;
+                    // other files can neither be read nor removed through this cache
+                    && e.depth() == 2
+                    && e.path().parent().and_then(Path::file_name).and_then(|d| d.to_str())
+                        == e.file_name().to_str().map(|c| &c[0..2])
             })
             .map(|e| {
                 (
@@ -409,20 +414,27 @@ impl Cache {
     /// * If the cache directory could not be read.
     pub fn remove_not_in_list(&self, tpe: FileType, list: &Vec<(Id, u32)>) -> RusticResult<()> {
         let mut list_cache = self.list_with_size(tpe)?;
+        // a failing removal must not keep the other outdated files in the cache:
+        // carry on and report the first error at the end
+        let mut first_err = None;
         // remove present files from the cache list
         for (id, size) in list {
             if let Some(cached_size) = list_cache.remove(id)
                 && &cached_size != size
             {
                 // remove cache files with non-matching size
-                self.remove(tpe, id)?;
+                if let Err(err) = self.remove(tpe, id) {
+                    _ = first_err.get_or_insert(err);
+                }
             }
         }
         // remove all remaining (i.e. not present in repo) cache files
         for id in list_cache.keys() {
-            self.remove(tpe, id)?;
+            if let Err(err) = self.remove(tpe, id) {
+                _ = first_err.get_or_insert(err);
+            }
         }
-        Ok(())
+        first_err.map_or(Ok(()), Err)
     }
 
     /// Reads full data of the given file.
